@@ -30,10 +30,8 @@ def pyval(v, nested=False):
     if isinstance(v, str):
         return '(str ' + s_str(v) + ')'
     if isinstance(v, bytes):
-        try:
-            return '(bytes (some ' + s_str(v.decode('utf8')) + '))'
-        except UnicodeDecodeError:
-            return '(bytes none)'
+        # normalize_value decodes with errors="replace" (trusted: Python's UTF-8 decoder)
+        return '(bytes (some ' + s_str(v.decode('utf8', 'replace')) + '))'
     if isinstance(v, Sequence):
         return '(list (' + ' '.join(pyval(x, True) for x in v) + ') ' + s_str(str(v)) + ')'
     return '(other ' + s_str(str(v)) + ')'
